@@ -357,6 +357,28 @@ MOTIFS['M36b_case_node_inside_iteration_dag_decider_inside'] = spec([
     node(5, [('a', sw(4, [('l0', 2), ('l1', 3)])), ('b', inp(2))], is_rec=True, recur_k=1),
     node(6, [('a', rec(1, 5, 2))])])
 
+# a node started for the first candidate, still running when a sibling of it fails, that the next candidate needs too
+# (the losing candidate must not stop what it has started; P16 with the shared node started by the loser itself)
+MOTIFS['M38_loser_started_a_node_the_next_candidate_needs'] = spec([
+    node(0), node(1, [('a', inp(0))]), node(2, [('a', inp(0))], fails=FAIL), node(3, [('a', inp(2))]),
+    node(4, [('a', inp(1)), ('b', inp(3))]), node(5, [('a', inp(1))]), node(6, [('a', one(4, 5))])])
+# two unnamed switches with one decision node and the same labels, but different cases
+MOTIFS['M37_two_unnamed_switches_same_decider_same_labels'] = spec([
+    node(0), node(1, body=LAB), node(2), node(3), node(4), node(5),
+    node(6, [('a', sw(1, [('l0', 2), ('l1', 3)], name=None))]), node(7, [('a', sw(1, [('l0', 4), ('l1', 5)], name=None))]),
+    node(8, [('a', inp(6)), ('b', inp(7))])])
+
+# nested recurrent subgraphs: the inner one (2 → 3) lies inside the outer one (1 → 4); when the outer one restarts, the
+# inner start node has to wait for the outer start node again
+MOTIFS['M39_nested_recurrent_subgraphs'] = spec([
+    node(0), node(1, [('a', inp(0))], has_additional=True), node(2, [('a', inp(1))], has_additional=True),
+    node(3, [('a', inp(2))], is_rec=True, recur_k=1), node(4, [('a', rec(2, 3, 2))], is_rec=True, recur_k=1),
+    node(5, [('a', rec(1, 4, 2))])])
+MOTIFS['M39b_nested_recurrent_subgraphs_outer_only_input'] = spec([
+    node(0), node(1, [('a', inp(0))], has_additional=True), node(2, [('a', inp(1))]),
+    node(3, [('a', inp(1))], has_additional=True), node(4, [('a', inp(3)), ('b', inp(2))], is_rec=True, recur_k=1),
+    node(5, [('a', rec(3, 4, 2))], is_rec=True, recur_k=1), node(6, [('a', rec(1, 5, 2))])])
+
 
 def _with_cb(sp, cb):
     sp = dict(sp)
